@@ -15,7 +15,7 @@ for src in "$OUT/$PID"/*/; do
   cp "$src"/patch.diff "$src"/README.md "$src"/*.rs $D/
   python3 - "$src/meta.json" "$D/meta.json" "$OUT/$PID/$k" <<'PY'
 import json,sys
-m=json.load(open(sys.argv[1])); m["staged_from"]=sys.argv[3]; m["round"]=3
+m=json.load(open(sys.argv[1])); m["staged_from"]=sys.argv[3]; m["round"]=int(sys.argv[4]) if len(sys.argv)>4 else 4
 json.dump(m,open(sys.argv[2],"w"),indent=2)
 PY
   sed -i "s#$OUT/$PID/$k/#/verif/$D/#g; s#$OUT/$PID/$k#/verif/$D#g" $D/README.md
